@@ -89,7 +89,26 @@ def observe(g, probe, tmpdir):
         return out
 
 
-EDITS = ["scale_param", "flip_param", "reassign_param", "meta_add", "meta_del", "meta_nested", "edge_item", "edge_assign",
+def _fresh_same_class(rng, n):
+    """a new node of the same class with its annotations erased where the class allows it (what a user does who swaps in
+    another layer under the same name and lets inference type it)"""
+    import nir
+    if isinstance(n, nir.Flatten):
+        return nir.Flatten(None, n.start_dim, n.end_dim)
+    if isinstance(n, nir.Output):
+        return nir.Output(None)
+    if isinstance(n, nir.Conv2d):
+        w = np.zeros((n.weight.shape[0] + 1,) + n.weight.shape[1:])
+        return nir.Conv2d(None, w, n.stride, n.padding, n.dilation, n.groups, np.zeros(w.shape[0]))
+    if isinstance(n, nir.Conv1d):
+        w = np.zeros((n.weight.shape[0] + 1,) + n.weight.shape[1:])
+        return nir.Conv1d(None, w, n.stride, n.padding, n.dilation, n.groups, np.zeros(w.shape[0]))
+    if isinstance(n, (nir.SumPool2d, nir.AvgPool2d)):
+        return type(n)(n.kernel_size, n.stride, n.padding)
+    return None
+
+
+EDITS = ["replace_same_class", "replace_same_class", "scale_param", "flip_param", "reassign_param", "meta_add", "meta_del", "meta_nested", "edge_item", "edge_assign",
          "edge_append", "edge_remove", "replace_node", "add_node", "set_types", "erase_output", "none"]
 
 
@@ -155,6 +174,13 @@ def edit(rng, g, how):
         else:
             return None
         return [how, list(new)]
+    if how == "replace_same_class":
+        cands = [(k, n) for k, n in leafs if _fresh_same_class(rng, n) is not None]
+        if not cands:
+            return None
+        k, n = rng.choice(cands)
+        g.nodes[k] = _fresh_same_class(rng, n)
+        return [how, k, type(n).__name__]
     if how == "replace_node":
         if not leafs:
             return None
@@ -217,9 +243,16 @@ def run(ctx, probes, prop_sites, n_quick=40, n_thorough=200, mutators=None):
             case = {"op": "history_twin", "graph": recipe, "history": hist}
             ctx.case(case); ctx.count("history_twin_runs")
             bad = None
-            for step in range(rng.randrange(3, 9)):
-                if rng.random() < 0.5:
-                    how = rng.choice(mutators or EDITS)
+            # every fourth history follows a script: call, swap a node for a fresh one of its class, same call again
+            script = None
+            if i % 4 == 0:
+                c0 = rng.choice([c for c in all_calls if c in probes] or all_calls)
+                script = [("call", c0), ("edit", "replace_same_class"), ("call", c0), ("edit", rng.choice(["edge_item", "scale_param", "meta_nested"])),
+                          ("call", c0), ("call", rng.choice(all_calls))]
+            for step in range(len(script) if script else rng.randrange(3, 9)):
+                forced = script[step] if script else None
+                if (forced and forced[0] == "edit") or (not forced and rng.random() < 0.5):
+                    how = forced[1] if forced else rng.choice(mutators or EDITS)
                     try:
                         d = edit(rng, live, how)
                     except Exception as e:  # noqa
@@ -229,7 +262,7 @@ def run(ctx, probes, prop_sites, n_quick=40, n_thorough=200, mutators=None):
                     hist.append(["edit"] + d)
                     ctx.count("history_edit_" + how)
                     continue
-                call = rng.choice(all_calls)
+                call = forced[1] if forced else rng.choice(all_calls)
                 try:
                     with warnings.catch_warnings():
                         warnings.simplefilter("ignore")
